@@ -50,7 +50,7 @@ Unsure    == [k |-> "unsure", v |-> << >>]
 IsErr(x)    == x.k = "error"
 IsUnsure(x) == x.k = "unsure"
 Bad(x)      == x.k \in {"error", "unsure"}
-RegV(name, t) == V("reg", <<name>> \o t)   \* a value of a REGISTERED type (jsonargparse/typing.py:385-412), identified by str(value)
+RegV(name, t) == V("reg", <<name>> \o t)   \* a value of a REGISTERED type (jsonargparse/typing.py:385-468), identified by what Python prints for it
 RegName(v)    == v.v[1]
 RegText(v)    == Tail(v.v)
 ScalarKinds == {"str", "int", "float", "bool", "null", "enum", "reg"}
@@ -74,7 +74,7 @@ TTuple(ts)     == T("tuple", ts)
 TTupleE(t)     == T("tuplee", <<t>>)        \* Tuple[t, ...]
 TDict(kt, vt)  == T("dict", <<kt, vt>>)
 TDC(fields)    == T("dc", fields)           \* dataclass: a sequence of <<name text, type, default value>>
-TReg(name)     == T("reg", <<name>>)        \* a registered type whose serializer is str(): "Rpath" pathlib.Path, "Rtd" timedelta, "Ruuid" UUID, "Rcomplex" complex
+TReg(name)     == T("reg", <<name>>)        \* a registered type of jsonargparse/typing.py, see RegSer / AdaptReg
 LeafC == {"str", "int", "float", "bool", "none"}
 
 UpperCase == <<"A","B","C","D","E","F","G","H","I","J","K","L","M","N","O","P","Q","R","S","T","U","V","W","X","Y","Z">>
@@ -237,15 +237,74 @@ LiteralNonStrTypes(vals) ==                                                     
   (IF "int" \in ks THEN <<TInt>> ELSE << >>) \o (IF "bool" \in ks THEN <<TBool>> ELSE << >>)
   \o (IF "float" \in ks THEN <<TFloat>> ELSE << >>) \o (IF "null" \in ks THEN <<TNone>> ELSE << >>)
 
-\* Registered types (:800-805, jsonargparse/typing.py:385-412): a value of the type passes, anything else goes to the
-\* deserializer (pathlib.Path, timedelta_deserializer, uuid.UUID, complex).  The value is identified by str(value); only
-\* CANONICAL spellings (str(deserializer(t)) = t) are decided here, the rest is Python's business (Unsure).
+(***************************************************************************)
+(* Alg: the REGISTERED types of jsonargparse/typing.py (:385-468) and the  *)
+(* branch of adapt_typehints that serves them (_typehints.py:800-805): a   *)
+(* value of the type passes, anything else goes to the type's DESERIALIZER;*)
+(* serialising calls the type's SERIALIZER.  A value is RegV(name, id):    *)
+(* `id` is what PYTHON says the value is (repr(range), str(timedelta),     *)
+(* str(Decimal), str(UUID), str(complex), str(Path), the base64 text of    *)
+(* bytes - computed by the harness with the standard library, never with   *)
+(* jsonargparse's serializers).  RegSer / RegDeser transcribe the          *)
+(* serializer / deserializer of each type; only CANONICAL spellings (those *)
+(* Python itself prints) are decided, the rest is Unsure.                  *)
+(*   "Rpath" pathlib.Path  "Rpathlike" os.PathLike (the value is a str)    *)
+(*   "Rtd" timedelta  "Ruuid" UUID  "Rcomplex" complex  "Rdec" Decimal     *)
+(*   "Rrange" range  "Rbytes" bytes  "Rbytearray" bytearray                *)
+(***************************************************************************)
+RECURSIVE SplitOn(_, _)
+SplitOn(t, c) == IF ~Has(t, c) THEN <<t>> ELSE LET i == FirstIdx(t, c) IN <<SubSeq(t, 1, i - 1)>> \o SplitOn(SubSeq(t, i + 1, Len(t)), c)
+NoSpaces(t) == SelectSeq(t, LAMBDA c : c # " ")
+RangeWord == <<"r", "a", "n", "g", "e", "(">>
+Sep       == <<",", " ">>
+IsRangeCall(u) == StartsWith(u, RangeWord) /\ Len(u) >= 7 /\ u[Len(u)] = ")"
+RangeArgs(u)   == SplitOn(NoSpaces(SubSeq(u, 7, Len(u) - 1)), ",")              \* typing.py:455  value[6:-1].replace(" ", "")
+\* repr(range): range(a, b) or range(a, b, s); the start is always there, a step of 1 never
+RangeId(a, b, st) == RangeWord \o a \o Sep \o b \o (IF st = <<"1">> THEN << >> ELSE Sep \o st) \o <<")">>
+\* range_serializer (typing.py:439-444)
+RangeSer(id) ==
+  LET p     == RangeArgs(id)
+      start == p[1]
+      stop  == p[2]
+      step  == IF Len(p) = 3 THEN p[3] ELSE <<"1">>
+  IN IF step = <<"1">>                                                           \* :440
+     THEN (IF start = <<"0">> THEN RangeWord \o stop \o <<")">>                   \* :441-442  range(stop)
+           ELSE RangeWord \o start \o Sep \o stop \o <<")">>)                      \* :443      range(start, stop)
+     ELSE RangeWord \o start \o Sep \o stop \o Sep \o step \o <<")">>             \* :444      range(start, stop, step)
+\* range_deserializer (typing.py:452-465)
+IntLike == Cat(<<Opt(Ch("-")), Plus(D)>>)                                         \* -?\d+
+RangeDeser(t) ==
+  LET u == Strip(t) IN                                                            \* :453
+  IF ~IsRangeCall(u) THEN ErrV("range")                                           \* :454, :465
+  ELSE LET p == RangeArgs(u) IN
+       IF Len(p) > 3 \/ \E i \in 1..Len(p) : ~FullMatch(IntLike, p[i]) THEN (IF Has(u, "UDIG") \/ Has(u, "LF") THEN Unsure ELSE ErrV("range"))
+       ELSE IF \E i \in 1..Len(p) : ~IntText(p[i]) THEN Unsure                    \* 007, -0: which int it is, is Python's business
+       ELSE IF Len(p) = 1 THEN RegV("Rrange", RangeId(<<"0">>, p[1], <<"1">>))    \* :456-458
+       ELSE IF Len(p) = 2 THEN RegV("Rrange", RangeId(p[1], p[2], <<"1">>))       \* :459-461
+       ELSE IF p[3] = <<"0">> THEN ErrV("range-step-0")                           \* range() raises ValueError
+       ELSE RegV("Rrange", RangeId(p[1], p[2], p[3]))                             \* :462-464
+
 HexLow   == Cls(Digits \cup {"a", "b", "c", "d", "e", "f"})
 UuidRe   == Cat(<<HexLow, HexLow, HexLow, HexLow, HexLow, HexLow, HexLow, HexLow, Ch("-"), HexLow, HexLow, HexLow, HexLow, Ch("-"), HexLow, HexLow, HexLow, HexLow, Ch("-"),
                   HexLow, HexLow, HexLow, HexLow, Ch("-"), HexLow, HexLow, HexLow, HexLow, HexLow, HexLow, HexLow, HexLow, HexLow, HexLow, HexLow, HexLow>>)
 Natural  == Alt(<<Ch("0"), Cat(<<D19, Star(D)>>)>>)
-TdCanon  == Cat(<<Natural, Ch(":"), D05, D, Ch(":"), D05, D>>)                   \* str(timedelta) below one day, whole seconds
-TdLoose  == Cat(<<Plus(D), Ch(":"), Plus(D), Ch(":"), D>>)                       \* typing.py:400, re.match: a prefix is enough
+\* str(timedelta): [-]D day[s], H:MM:SS[.ffffff]   (the word is SINGULAR for 1 and -1; no day part for 0 days)
+Hour23   == Alt(<<D, Cat(<<Ch("1"), D>>), Cat(<<Ch("2"), Cls({"0", "1", "2", "3"})>>)>>)
+Micros   == Cat(<<Ch("."), D, D, D, D, D, D>>)
+TdClock  == Cat(<<Hour23, Ch(":"), D05, D, Ch(":"), D05, D, Opt(Micros)>>)
+TdOneDay == Cat(<<Opt(Ch("-")), Ch("1"), Lit(<<" ", "d", "a", "y", ",", " ">>), TdClock>>)
+TdDays   == Cat(<<Opt(Ch("-")), Alt(<<Cat(<<Cls({"2", "3", "4", "5", "6", "7", "8", "9"}), Star(D)>>), Cat(<<Ch("1"), Plus(D)>>)>>), Lit(<<" ", "d", "a", "y", "s", ",", " ">>), TdClock>>)
+TdCanon  == Alt(<<TdClock, TdOneDay, TdDays>>)
+\* timedelta_deserializer (typing.py:394-409): re.match of  \d+:\d+:\d[\.\d+]*  - with  [-\d]+ day[s]*,   in front when the
+\* text contains "day" (:401-402) - then timedelta(**floats).  On a canonical text it gives the timedelta that prints so.
+TdLoose  == Cat(<<Plus(D), Ch(":"), Plus(D), Ch(":"), D>>)
+TdLooseDays == Cat(<<Plus(Cls(Digits \cup {"-"})), Lit(<<" ", "d", "a", "y">>), Star(Ch("s")), Lit(<<",", " ">>), TdLoose>>)
+HasWord(t, w) == \E i \in 1..(Len(t) - Len(w) + 1) : SubSeq(t, i, i + Len(w) - 1) = w
+TdDeser(t) ==
+  LET withDays == HasWord(t, <<"d", "a", "y">>) IN                                \* :401  if "day" in value
+  IF FullMatch(TdCanon, t) /\ ~(Len(t) > 7 /\ SubSeq(t, Len(t) - 6, Len(t)) = <<".", "0", "0", "0", "0", "0", "0">>) THEN RegV("Rtd", t)
+  ELSE IF Ends(IF withDays THEN TdLooseDays ELSE TdLoose, t, 1) # {} THEN Unsure   \* accepted, but which timedelta (25:61:61) is Python's business
+  ELSE ErrV("timedelta")                                                          \* :404-405
 CplxInt  == Cat(<<Opt(Ch("-")), D19, Star(D)>>)
 CplxCanon == Alt(<<Cat(<<Ch("("), CplxInt, Sign, D19, Star(D), Ch("j"), Ch(")")>>), Cat(<<CplxInt, Ch("j")>>)>>)
 PathCanonical(t) ==
@@ -253,19 +312,66 @@ PathCanonical(t) ==
   /\ (Len(t) = 1 \/ t[Len(t)] # "/")
   /\ \A i \in 1..(Len(t) - 1) : ~(t[i] = "/" /\ t[i + 1] = "/")
   /\ \A i \in 1..Len(t) : t[i] = "." => ~((i = 1 \/ t[i - 1] = "/") /\ (i = Len(t) \/ t[i + 1] = "/")) \/ Len(t) = 1
-AdaptReg(name, x) ==
-  IF x.k = "reg" /\ RegName(x) = name THEN x
-  ELSE IF x.k # "str" THEN (IF name = "Rcomplex" /\ x.k \in {"int", "float", "bool"} THEN Unsure ELSE ErrV("registered-type"))
-  ELSE CASE name = "Rpath"    -> IF PathCanonical(x.v) THEN RegV(name, x.v) ELSE Unsure
-         [] name = "Rtd"      -> IF FullMatch(TdCanon, x.v) THEN RegV(name, x.v)
-                                 ELSE IF Ends(TdLoose, x.v, 1) # {} THEN Unsure ELSE ErrV("timedelta")
-         [] name = "Ruuid"    -> IF FullMatch(UuidRe, x.v) THEN RegV(name, x.v)
-                                 ELSE IF \E i \in 1..Len(x.v) : x.v[i] \notin Digits \cup {"a","b","c","d","e","f","A","B","C","D","E","F","-","{","}","u","r","n",":","U","R","N"}
-                                      THEN ErrV("uuid") ELSE Unsure
-         [] name = "Rcomplex" -> IF FullMatch(CplxCanon, x.v) THEN RegV(name, x.v)
-                                 ELSE IF \E i \in 1..Len(x.v) : x.v[i] \notin Digits \cup {"+", "-", ".", "e", "E", "j", "J", "(", ")", " ", "_", "i", "n", "f", "a", "I", "N", "F", "A", "t", "y", "T", "Y"}
-                                      THEN ErrV("complex") ELSE Unsure
+\* decimal.Decimal is registered with serializer FLOAT (typing.py:387): str(Decimal) -> repr(float(...)).  The float is the
+\* same number only for the decimals that are dyadic rationals; the others come back as Decimal(0.1) = 0.1000000000000000055...
+DecCanon == Cat(<<Opt(Ch("-")), Natural, Opt(Cat(<<Ch("."), Star(D), D19>>))>>)      \* how str(Decimal) prints a plain finite decimal
+DyadicFractions == {<<"5">>, <<"2", "5">>, <<"7", "5">>, <<"1", "2", "5">>, <<"3", "7", "5">>, <<"6", "2", "5">>, <<"8", "7", "5">>}
+DecExact(t) == /\ FullMatch(DecCanon, t) /\ Len(t) <= 15 /\ t # <<"-", "0">>
+               /\ (~Has(t, ".") \/ SubSeq(t, FirstIdx(t, ".") + 1, Len(t)) \in DyadicFractions)
+DecSer(id) == IF ~DecExact(id) THEN Unsure ELSE Flt(IF Has(id, ".") THEN id ELSE id \o <<".", "0">>)   \* repr(float(d))
+DecDeser(x) ==                                                                     \* Decimal(x)
+  CASE x.k = "int"   -> IF IntText(x.v) THEN RegV("Rdec", x.v) ELSE Unsure
+    [] x.k = "float" -> IF Len(x.v) > 2 /\ SubSeq(x.v, Len(x.v) - 1, Len(x.v)) = <<".", "0">> /\ DecExact(SubSeq(x.v, 1, Len(x.v) - 2))
+                        THEN RegV("Rdec", SubSeq(x.v, 1, Len(x.v) - 2))
+                        ELSE IF Has(x.v, ".") /\ DecExact(x.v) THEN RegV("Rdec", x.v) ELSE Unsure
+    [] x.k = "str"   -> IF FullMatch(DecCanon, Strip(x.v)) /\ x.v = Strip(x.v) /\ x.v # <<"-", "0">> THEN RegV("Rdec", x.v)
+                        ELSE IF \E i \in 1..Len(x.v) : x.v[i] \notin Digits \cup {"+", "-", ".", "e", "E", "_", " ", "i", "n", "f", "t", "y", "a", "s", "I", "N", "F", "T", "Y", "A", "S", "q", "Q"}
+                             THEN ErrV("decimal") ELSE Unsure
+    [] OTHER -> Unsure
+\* bytes / bytearray: bytes_serializer = b64encode(value).decode(), bytes_deserializer = b64decode (typing.py:415-431)
+B64Char  == Cls(Digits \cup {"+", "/"} \cup {UpperCase[i] : i \in 1..26} \cup {LowerCase[i] : i \in 1..26})
+B64Canon == Cat(<<Star(Cat(<<B64Char, B64Char, B64Char, B64Char>>)),
+                  Opt(Alt(<<Cat(<<B64Char, B64Char, Ch("="), Ch("=")>>), Cat(<<B64Char, B64Char, B64Char, Ch("=")>>)>>))>>)
+
+StrSerialised == {"Rpath", "Rpathlike", "Rtd", "Ruuid", "Rcomplex"}               \* registered with the default serializer str
+\* the serializer of the type on a value (what is put into the dumped tree)
+RegSer(name, v) ==
+  IF name \in StrSerialised
+  THEN CASE v.k = "reg"  -> Str(RegText(v))                                       \* str(value)
+         [] v.k = "null" -> Str(<<"N", "o", "n", "e">>)                             \* str(None): reached only when the NoneType member was not tried first
+         [] v.k = "str"  -> v
+         [] v.k \in {"int", "float"} -> Str(v.v)
+         [] v.k = "bool" -> Str(IF v.v = TrueText THEN <<"T", "r", "u", "e">> ELSE <<"F", "a", "l", "s", "e">>)
          [] OTHER -> Unsure
+  ELSE IF v.k # "reg" \/ RegName(v) # name THEN ErrV("serializer-raises")         \* range_serializer / float / b64encode raise on anything else
+  ELSE CASE name = "Rrange" -> Str(RangeSer(RegText(v)))
+         [] name = "Rdec"   -> DecSer(RegText(v))
+         [] OTHER           -> Str(RegText(v))                                    \* bytes, bytearray: the id IS the base64 text
+RegSerOk(name, v) == name \in StrSerialised \/ (v.k = "reg" /\ RegName(v) = name)
+AdaptReg(name, x) ==
+  IF x.k = "reg" /\ RegName(x) = name THEN x                                      \* is_value_of_type
+  ELSE CASE name = "Rpathlike" -> IF x.k = "str" THEN x ELSE IF x.k = "int" THEN Str(x.v) ELSE Unsure       \* deserializer = str: the value IS a str
+         [] name = "Rdec"      -> DecDeser(x)
+         [] name = "Rcomplex" /\ x.k \in {"int", "float", "bool"} -> Unsure
+         [] x.k # "str"        -> ErrV("registered-type")
+         [] name = "Rpath"     -> IF PathCanonical(x.v) THEN RegV(name, x.v) ELSE Unsure
+         [] name = "Rtd"       -> TdDeser(x.v)
+         [] name = "Rrange"    -> RangeDeser(x.v)
+         [] name = "Ruuid"     -> IF FullMatch(UuidRe, x.v) THEN RegV(name, x.v)
+                                  ELSE IF \E i \in 1..Len(x.v) : x.v[i] \notin Digits \cup {"a","b","c","d","e","f","A","B","C","D","E","F","-","{","}","u","r","n",":","U","R","N"}
+                                       THEN ErrV("uuid") ELSE Unsure
+         [] name = "Rcomplex"  -> IF FullMatch(CplxCanon, x.v) THEN RegV(name, x.v)
+                                  ELSE IF \E i \in 1..Len(x.v) : x.v[i] \notin Digits \cup {"+", "-", ".", "e", "E", "j", "J", "(", ")", " ", "_", "i", "n", "f", "a", "I", "N", "F", "A", "t", "y", "T", "Y"}
+                                       THEN ErrV("complex") ELSE Unsure
+         [] name \in {"Rbytes", "Rbytearray"} -> IF FullMatch(B64Canon, x.v) THEN RegV(name, x.v) ELSE Unsure     \* b64decode is lenient
+         [] OTHER -> Unsure
+\* the families a value brings by itself: a Decimal that is not a dyadic rational does not survive its float serializer
+RECURSIVE ValueFamilies(_)
+ValueFamilies(v) ==
+  IF v.k \in SeqKinds THEN UNION {ValueFamilies(v.v[n]) : n \in 1..Len(v.v)}
+  ELSE IF v.k \in {"dict", "ns"} THEN UNION {ValueFamilies(v.v[n][2]) : n \in 1..Len(v.v)}
+  ELSE IF v.k = "reg" /\ RegName(v) = "Rdec" /\ ~DecExact(RegText(v)) THEN {"decimal-serialised-as-float"}
+  ELSE {}
 
 RECURSIVE Adapt(_, _, _, _, _), LoadThenAdapt(_, _, _), UnionTrial(_, _, _, _, _, _, _), AdaptDC(_, _, _)
 Adapt(t, x, orig, sd, li) ==
@@ -305,6 +411,8 @@ Adapt(t, x, orig, sd, li) ==
               IN Lift(ks \o ys, DictV(Strict([i \in 1..Len(x.v) |-> <<ks[i], ys[i]>>])))
     [] t.c = "dc" -> AdaptDC(t, x, sd \/ li)                                     \* :1032-1050
     [] t.c = "reg" -> AdaptReg(t.p[1], x)                                        \* :800-805
+    [] t.c = "restr" ->                                                         \* restricted number / string types (typing.py:106-247, registered at :356):
+         LET y == AdaptLeaf(T(t.p[2], << >>), x) IN IF IsErr(y) THEN y ELSE Unsure   \* the base type must fit; the restriction itself is C20's business
     [] OTHER -> Unsure
 
 \* the trial loop of the Union branch (:834-847) and its `vals` list: the first member that accepts wins; a str member
@@ -372,7 +480,8 @@ SerOk(t, v) ==
     [] t.c \in {"tuplee", "set"} -> v.k \in SeqKinds /\ \A i \in 1..Len(v.v) : SerOk(t.p[1], v.v[i])
     [] t.c = "dict"  -> v.k = "dict" /\ \A i \in 1..Len(v.v) : SerOk(t.p[2], v.v[i][2])
     [] t.c = "dc"    -> v.k = "ns"
-    [] t.c = "reg"   -> TRUE                                                    \* :802-803 serializer = str never raises
+    [] t.c = "restr" -> v.k = t.p[2]                                            \* serializer = the base type (typing.py:356)
+    [] t.c = "reg"   -> RegSerOk(t.p[1], v)                                     \* :802-803 str never raises, the other serializers do
     [] OTHER -> FALSE
 Ser(t, v, o) ==
   CASE t.c \in {"str", "int", "bool", "none", "literal"} -> v
@@ -390,13 +499,8 @@ Ser(t, v, o) ==
          LET ks == Strict([i \in 1..Len(v.v) |-> IF t.p[1].c = "int" /\ v.v[i][1].k = "int" THEN Str(v.v[i][1].v) ELSE v.v[i][1]])
              ys == Strict([i \in 1..Len(v.v) |-> Ser(t.p[2], v.v[i][2], o)])
          IN Lift(ys, DictV(Strict([i \in 1..Len(v.v) |-> <<ks[i], ys[i]>>])))
-    [] t.c = "reg"   ->                                                         \* :802-803  registered_type.serializer(val) = str(val)
-         CASE v.k = "reg"  -> Str(RegText(v))
-           [] v.k = "null" -> Str(<<"N", "o", "n", "e">>)                         \* str(None): reached only when the NoneType member was not tried first
-           [] v.k = "str"  -> v
-           [] v.k \in {"int", "float"} -> Str(v.v)
-           [] v.k = "bool" -> Str(IF v.v = TrueText THEN <<"T", "r", "u", "e">> ELSE <<"F", "a", "l", "s", "e">>)
-           [] OTHER -> Unsure
+    [] t.c = "restr" -> v                                                       \* int(v) / float(v) / str(v) of a value of that base type
+    [] t.c = "reg"   -> RegSer(t.p[1], v)                                       \* :802-803  registered_type.serializer(val)
     [] t.c = "dc"    ->                                                         \* :1041  load_value(parser.dump(val, **dump_kwargs))
          LET inner == DumpFields(t.p, v, o) IN
          IF Bad(inner) THEN inner ELSE ThroughText("yaml", inner, o.ideal)      \* a NESTED yaml round trip, whatever the outer format
@@ -446,7 +550,7 @@ SchemaDependent(v) ==
   ELSE IF v.k = "dict" THEN \E n \in 1..Len(v.v) : SchemaDependent(v.v[n][1]) \/ SchemaDependent(v.v[n][2])
   ELSE IF v.k = "ns" THEN \E n \in 1..Len(v.v) : SchemaDependent(v.v[n][2])
   ELSE IF v.k \in {"str", "enum"} THEN DumperTag(v.v) # "str" \/ Deviation(v.v) # "none"
-  ELSE IF v.k = "reg" THEN DumperTag(RegText(v)) # "str" \/ Deviation(RegText(v)) # "none"
+  ELSE IF v.k = "reg" THEN LET w == RegSer(RegName(v), v) IN w.k = "float" \/ (w.k = "str" /\ (DumperTag(w.v) # "str" \/ Deviation(w.v) # "none"))
   ELSE v.k = "float"
 \* The serialising Enum branch never raises (:809-811), so the Union loop (:836-839) stops at an Enum member for ANY value:
 \* a member of another Enum (or a tuple / set) behind it stays unserialised and the dumper cannot represent it
@@ -458,7 +562,7 @@ HasUnserialised(x) ==
   ELSE FALSE
 LeafHazards(t, v, fmt) ==
   LET s == SerializeLeaf(t, v, TRUE) IN
-  (IF Bad(s) THEN {} ELSE Hazards(fmt, s)) \cup NestedHazards(t, v)
+  (IF Bad(s) THEN {} ELSE Hazards(fmt, s)) \cup NestedHazards(t, v) \cup ValueFamilies(v)
   \cup (IF ~Bad(s) /\ HasUnserialised(s) THEN {"union-enum-member-serialises-anything"} ELSE {})
 RoundTripModuloKnown(t, v, fmt) == RoundTrip(t, v, fmt) \/ IsUnsure(AlgRT(t, v, fmt)) \/ LeafHazards(t, v, fmt) # {}
 HazardsAreReal(t, v, fmt)       == (LeafHazards(t, v, fmt) # {} /\ ~IsUnsure(AlgRT(t, v, fmt))) => ~RoundTrip(t, v, fmt)
@@ -496,7 +600,9 @@ EntriesBad(ps) == \E i \in 1..Len(ps) : Bad(ps[i][2])
 CfgTree(shape, cfg, o) ==
   LET top == CleanEntries(shape.top, cfg.top, o)
       sub == IF cfg.sel = 0 THEN << >> ELSE CleanEntries(shape.subs[cfg.sel][2], cfg.sub, o)
-  IN IF EntriesBad(top) \/ EntriesBad(sub) THEN ErrV("serialize")
+  IN IF \E i \in 1..Len(top) : IsUnsure(top[i][2]) THEN Unsure
+     ELSE IF \E i \in 1..Len(sub) : IsUnsure(sub[i][2]) THEN Unsure
+     ELSE IF EntriesBad(top) \/ EntriesBad(sub) THEN ErrV("serialize")
      ELSE LET base == NestPairs(shape.top, top) IN
           IF cfg.sel = 0 THEN base
           ELSE DictV(base.v \o << <<Str(shape.subs[cfg.sel][1]), NestPairs(shape.subs[cfg.sel][2], sub)>> >>)
@@ -520,7 +626,8 @@ DumpTree(shape, cfg, fl) ==
   IN IF Bad(tree) THEN tree
      ELSE IF ~fl.skipdefault THEN tree
      ELSE IF shape.required /\ Len(shape.subs) > 0 THEN ErrV("skip-default-required-subcommand")   \* :800-801: get_defaults() has no sub-command, strip_link_target_keys raises
-     ELSE DeleteDefaults(tree, CfgTree(shape, DefaultsCfg(shape), o))            \* :799-803
+     ELSE LET dfl == CfgTree(shape, DefaultsCfg(shape), o) IN                    \* :799-803
+          IF Bad(dfl) THEN Unsure ELSE DeleteDefaults(tree, dfl)                 \* a default that cannot be serialised stays as it is (:828-830)
 \* parse_string / parse_path / --config on the text of a dump
 LookupPath(tree, p) == IF Len(p) = 1 THEN GetKey(tree, Str(p[1])) ELSE GetKey(GetKey(tree, Str(p[1])), Str(p[2]))
 HasPath(tree, p) == HasKey(tree, Str(p[1])) /\ (Len(p) = 1 \/ (GetKey(tree, Str(p[1])).k = "dict" /\ HasKey(GetKey(tree, Str(p[1])), Str(p[2]))))
@@ -584,8 +691,8 @@ DevSkipDefaultOtherType(shape, cfg, fl) ==
 CfgHazards(shape, cfg, fmt, fl) ==
   LET tree == DumpTree(shape, cfg, Flags(TRUE, fl.skipnone, FALSE)) IN
   (IF Bad(tree) THEN {} ELSE Hazards(fmt, tree))
-  \cup UNION {NestedHazards(shape.top[i].t, cfg.top[i]) : i \in 1..Len(shape.top)}
-  \cup (IF cfg.sel = 0 THEN {} ELSE UNION {NestedHazards(shape.subs[cfg.sel][2][i].t, cfg.sub[i]) : i \in 1..Len(cfg.sub)})
+  \cup UNION {NestedHazards(shape.top[i].t, cfg.top[i]) \cup ValueFamilies(cfg.top[i]) : i \in 1..Len(shape.top)}
+  \cup (IF cfg.sel = 0 THEN {} ELSE UNION {NestedHazards(shape.subs[cfg.sel][2][i].t, cfg.sub[i]) \cup ValueFamilies(cfg.sub[i]) : i \in 1..Len(cfg.sub)})
 CfgDeviations(shape, cfg, fmt, fl) ==
   (IF DevSubcommandLost(shape, cfg, fl) THEN {"subcommand-selector-not-dumped"} ELSE {})
   \cup (IF DevSkipDefaultRequiredSub(shape, fl) THEN {"skip-default-required-subcommand-raises"} ELSE {})
